@@ -4,7 +4,7 @@ from tools import vlib, t3
 from tools.vlib import hx
 
 MODULE = "PropC12"
-THEOREMS = ["C12_lockset_sound", "C12_discipline_tags", "C12_discipline_ports_and_slots", "C12_only_accessors", "C12_tags_refuted_before_repair"]
+THEOREMS = ["C12_code_conforms", "C12_lockset_sound", "C12_discipline_tags", "C12_discipline_ports_and_slots", "C12_only_accessors", "C12_tags_refuted_before_repair"]
 
 
 def build(rng, i):
@@ -19,8 +19,9 @@ def build(rng, i):
     if kind == 0:
         # fan-out of one out-port to several consumers, one of them a tagging component; tagged items feed further tasks
         a = sp.proc(t3.Proc("mk", kind="cattok", ins=[("a", [(s, "out")])], outs=[("o", "{i:a}.mk"), ("o2", "{i:a}.mk2")], cores=rng.randint(1, 2)))
-        tg = sp.raw("COMP maptags %s %s %d %s" % (hx("tagger"), hx("k"), a, hx("o")))
-        sp.proc(t3.Proc("c1", kind="cat", ins=[("a", [(a, "o")])], outs=[("o", "{i:a}.c1")]))
+        tg = sp.raw("COMP maptags %s %s %d %s %d" % (hx("tagger"), hx("k"), a, hx("o"), rng.choice([0, 0, 30, 150])))
+        c1 = sp.proc(t3.Proc("c1", kind="cat", ins=[("a", [(a, "o")])], outs=[("o", "{i:a}.c1")]))
+        sp.proc(t3.Proc("down", kind="cat", ins=[("a", [(c1, "o")])], outs=[("o", "{i:a}.down")], sleep="sleep 0.0%d" % rng.randint(1, 9)))
         sp.proc(t3.Proc("c2", kind="cat", ins=[("a", [(a, "o")])], outs=[("o", "{i:a}.c2")]))
         sp.proc(t3.Proc("c3", kind="cat", ins=[("a", [(tg, "out")])], outs=[("o", "{i:a}.c3")]))
         sp.proc(t3.Proc("c4", kind="cat", ins=[("a", [(a, "o2")])], outs=[("o", "{i:a}.c4")]))
